@@ -47,10 +47,12 @@ type Req struct {
 	NoExec bool
 	Shared bool
 	PrintRaw bool // call PrintSyntaxTree() on the process's standard output (not captured per call)
+	Misuse bool
 	TreeFirst bool // build and print the syntax tree BEFORE calling Execute() (default: Execute first)
 }
 
 type Res struct {
+	Misuse string ` + "`json:\",omitempty\"`" + `
 	Seq    int
 	OK     bool
 	Panic  string   ` + "`json:\",omitempty\"`" + `
@@ -133,6 +135,21 @@ func collect[U Uint](p *{{.Type}}[U], err error, req *Req, res *Res) {
 	res.Write = wb.String()
 	if req.PrintRaw {
 		p.PrintSyntaxTree()
+	}
+	if req.Misuse {
+		// an owner that breaks ITS OWN instance: the text is replaced by a shorter one without Reset and the stale
+		// tree is printed to standard output; the panic is recovered, as a server would. Whatever this does to this
+		// instance, every other instance must go on as if alone.
+		res.Misuse = func() (out string) {
+			defer func() {
+				if x := recover(); x != nil {
+					out = "panicked"
+				}
+			}()
+			p.Buffer = ""
+			p.PrintSyntaxTree()
+			return "printed"
+		}()
 	}
 	if req.Stdout {
 		res.Stdout = captureStdout(func() { p.PrintSyntaxTree() })
